@@ -214,6 +214,17 @@ def step (w : World) : Op → World
 
 def run (w : World) (ops : List Op) : World := ops.foldl step w
 
+/-- The program drops model `m`: it forgets the model and every reference it holds to one of its agents; the model and
+    its agents become garbage (reference cycle `model ↔ agents`, collected by the cycle collector: runtime fact, trusted).
+    For everything the program can still observe - the other models, its own sets, which agents are alive - this is the
+    history `remove_all_agents(m)` followed by dropping each held reference to an agent of `m`: no new primitive, so every
+    theorem over `run World.empty ops` covers histories with dropped models.  The slot `m` stays (models are named by
+    creation index) and is never addressed again (the driver answers `bad-op`). -/
+def dropModelOps (w : World) (m : Nat) : List Op :=
+  .removeAll m :: ((w.held.filter fun a => (w.info[a]?.map (·.model)) == some m).map .unhold)
+
+def dropModel (w : World) (m : Nat) : World := run w (dropModelOps w m)
+
 /-- an explicit in-place reordering of one of the registry's own sets -/
 def Op.reordersRegistry : Op → Bool
   | .shuffle (.all _) | .shuffle (.byType _ _) | .sort (.all _) _ | .sort (.byType _ _) _ => true
